@@ -306,15 +306,30 @@ func minimise(kind string, ops []string) []string {
 			}
 		}
 	}
+	// canonical push values 1, 2, … so that the key identifies the shape of the failure
+	out := make([]string, len(ops))
+	next := 1
+	for i, op := range ops {
+		if op[0] == 'p' {
+			out[i] = "p" + strconv.Itoa(next)
+			next++
+		} else {
+			out[i] = op
+		}
+	}
+	if fails(out) {
+		return out
+	}
 	return ops
 }
 
 func runStacks(ctx *common.Ctx, auxDriver string) {
 	r := ctx.R.Fork(0xC01A)
-	nSeq := ctx.N(400, 6000)
+	nSeq := ctx.N(400, 2500)
 	oracle := ctx.NewOracle("stack-vs-list",
 		"the real stack.go / scope_stack.go structures, driven through gojq.VerifStack / VerifScopeStack with push/pop/top/save/restore in fork (LIFO) discipline, "+
 			"must equal a naive immutable list with a stack of saved lists after every operation (pop/top values, and the whole chain)")
+	reported := map[string]int{}
 	for _, kind := range []string{"stack", "scopestack"} {
 		st := ctx.NewStream(kind, "Gojq.Stack.Stack.{push,pop,top,save,restore} (Model/Stack.lean) — theorem Gojq.C01Stack.refines_list",
 			"index, limit, len(data) and the chain after every operation of a random LIFO-disciplined sequence; distinct = distinct answer lines")
@@ -324,7 +339,7 @@ func runStacks(ctx *common.Ctx, auxDriver string) {
 			switch {
 			case i < 40:
 				n = r.Range(1, 12)
-			case i%10 == 0:
+			case i%10 == 0 && i < 400:
 				n = r.Range(1000, 4000)
 			default:
 				n = r.Range(10, 300)
@@ -341,10 +356,11 @@ func runStacks(ctx *common.Ctx, auxDriver string) {
 			if strings.Contains(res.answer, "PANIC") {
 				oracle.Distribution["ends with pop of empty (panic expected)"]++
 			}
-			if res.bad >= 0 {
+			if res.bad >= 0 && reported[kind] < 5 {
+				reported[kind]++
 				min := minimise(kind, ops)
 				mres := runStackOps(kind, min)
-				ctx.Violate("stack:"+kind+":"+strings.Join(min, " "),
+				ctx.Violate(kind+":"+strings.Join(min, " "),
 					kind+" diverges from the immutable list: "+mres.what,
 					map[string]any{"stack": kind, "ops": strings.Join(min, " "), "observed": mres.answer, "what": mres.what,
 						"how": "drive gojq.NewVerifStack()/NewVerifScopeStack() (build tag verif) with the ops: p<n> push, o pop, t top, s save, r restore most recent snapshot"})
